@@ -147,6 +147,22 @@ func newCalBackend(prefix string, seed uint64) *calBackend {
 		for k := 0; k < r.Intn(4); k++ {
 			p := fmt.Sprintf("%se%d.ics", c.Path, k)
 			data := newEvent(fmt.Sprintf("uid-%d-%d", i, k), rt.Pick(r, []string{"Lunch", "Meeting; with, commas", "Ünïcode", "a\\b"}), time.Date(2024, 1, 1+k, 10, 0, 0, 0, time.UTC))
+			switch r.Intn(8) {
+			case 0: // no SUMMARY, no DTEND
+				data.Children[0].Props.Del(ical.PropSummary)
+				data.Children[0].Props.Del(ical.PropDateTimeEnd)
+			case 1: // a to-do
+				data.Children[0].Name = ical.CompToDo
+				data.Children[0].Props.Del(ical.PropDateTimeEnd)
+			case 2: // an all-day event: properties with parameters
+				data.Children[0].Props.Del(ical.PropDateTimeEnd)
+				data.Children[0].Props.SetDate(ical.PropDateTimeStart, time.Date(2024, 1, 1+k, 0, 0, 0, 0, time.UTC))
+				at := ical.NewProp(ical.PropAttendee)
+				at.Value = "mailto:ann@example.org"
+				at.Params.Set(ical.ParamParticipationStatus, "NEEDS-ACTION")
+				at.Params.Set(ical.ParamCommonName, "Ann; the first, of: many")
+				data.Children[0].Props.Add(at)
+			}
 			b.objs[p] = &caldav.CalendarObject{Path: p, ModTime: time.Date(2024, 1, 1, 0, 0, k, 0, time.UTC), ContentLength: int64(100 + k), ETag: fmt.Sprintf("tag-%d-%d", i, k), Data: data}
 		}
 	}
@@ -291,6 +307,14 @@ func newCardBackend(prefix string, seed uint64) *cardBackend {
 			p := fmt.Sprintf("%sc%d.vcf", ab.Path, k)
 			b.objs[p] = &carddav.AddressObject{Path: p, ModTime: time.Date(2024, 2, 1, 0, 0, k, 0, time.UTC), ContentLength: int64(50 + k), ETag: fmt.Sprintf("ctag-%d-%d", i, k),
 				Card: newCard(rt.Pick(r, []string{"Ann", "Bob; Jr, III", "Zoë"}), fmt.Sprintf("p%d@example.org", k))}
+			// what the interfaces permit: a stored card needs neither UID nor EMAIL
+			switch r.Intn(6) {
+			case 0:
+				delete(b.objs[p].Card, vcard.FieldUID)
+			case 1:
+				delete(b.objs[p].Card, vcard.FieldEmail)
+				b.objs[p].Card.SetValue(vcard.FieldVersion, "4.0")
+			}
 		}
 	}
 	return b
